@@ -228,6 +228,7 @@ def c10(run):
     run.rule = ("impl->spec: seeded random macro programs over lists and maps with logging / erroring bodies; non-trivial = contains a comprehension")
     mc_vectors(run, "CelEvalMC_C10")
     mc_vectors(run, "CelEvalMC_C10_maps")
+    mc_vectors(run, "CelEvalMC_C10_err")         # quantifiers whose bodies log / fail, over every list up to 3 of {0, 1, 2}: the first error aborts, later elements are not visited
     if run.tier == "thorough":
         mc_vectors(run, "CelEvalMC_C10_lists")
         mc_vectors(run, "CelEvalMC_C10_chain")      # macros chained on macros (<= 3 operators) with logging / erroring compound leaves
